@@ -28,7 +28,7 @@ var modelled = map[string]string{
 	"time.(Time).UTC": "T-time", "time.(Time).Location": "T-time", "time.(Time).Format": "T-time", "time.Parse": "T-time",
 	"http.ParseTime": "T-time", "time.(Time).UnixNano": "T-time",
 	"path.IsAbs": "T-path",
-	"strings.SplitN": "T-strings", "strings.Split": "T-strings",
+	"strings.SplitN": "T-strings", "strings.Split": "T-strings", "path.Join": "T-path",
 	"path.Clean": "T-path", "filepath.Join": "T-path", "filepath.FromSlash": "T-path", "filepath.ToSlash": "T-path", "filepath.Rel": "T-path",
 	"url.Parse": "T-url", "url.(*URL).String": "T-url",
 }
@@ -366,6 +366,16 @@ func (x *Exec) modelCall(st *State, fr *Frame, key string, cc *ssa.CallCommon, a
 		ref := x.newRef(st)
 		x.storeLoc(st, &Loc{Kind: locHeap, Ref: ref, Root: ut}, Val{T: ut, Term: fmt.Sprintf("(urlParseVal %s)", args[0].Term)})
 		return Val{T: rt, Tup: []Val{{T: tup.At(0).Type(), Term: ite(ok, ref, "0")}, {T: tError, Term: e}}}, true
+	case "path.Join":
+		// pjoin is declared (uninterpreted, T-path) by /verif/specs/paths.spec
+		if _, ok := x.rawFuncs["pjoin"]; !ok {
+			return Val{}, false
+		}
+		elems, ok := x.varargs(st, fr, cc.Args[0])
+		if !ok || len(elems) != 2 {
+			return Val{}, false
+		}
+		return b(fmt.Sprintf("(pjoin %s %s)", elems[0].Term, elems[1].Term))
 	case "path.IsAbs":
 		return b(fmt.Sprintf("(str.prefixof \"/\" %s)", args[0].Term))
 	case "path.Clean":
@@ -596,6 +606,11 @@ func (x *Exec) declURL(st *State) {
 	}
 	pu := x.C.mkStruct(ut, args)
 	x.C.decl(fmt.Sprintf("(assert (forall ((p String)) (! (=> (and (str.prefixof \"/\" p) (not (str.prefixof \"//\" p))) (and (urlParseOk (urlString %s)) (= (%s (urlParseVal (urlString %s))) p))) :pattern ((urlString %s)))))", pu, x.C.selName(ut, fieldIndex(ut, "Path")), pu, pu))
+	// T-url for URLs with scheme / user / host as well: a rooted path (no Opaque part, no RawPath / query / fragment
+	// set) survives String and Parse
+	sel := func(f string) string { return x.C.selName(ut, fieldIndex(ut, f)) }
+	x.C.decl(fmt.Sprintf("(assert (forall ((u %s)) (! (=> (and (str.prefixof \"/\" (%s u)) (not (str.prefixof \"//\" (%s u))) (= (%s u) \"\") (= (%s u) \"\") (= (%s u) \"\") (= (%s u) \"\") (not (%s u))) (and (urlParseOk (urlString u)) (= (%s (urlParseVal (urlString u))) (%s u)))) :pattern ((urlString u)))))",
+		s, sel("Path"), sel("Path"), sel("Opaque"), sel("RawPath"), sel("RawQuery"), sel("Fragment"), sel("ForceQuery"), sel("Path"), sel("Path")))
 }
 
 func (x *Exec) declTime() {
